@@ -38,17 +38,24 @@ func runParallel(fm *Frame, functions ...Callable) error {
 	var wg sync.WaitGroup
 	wg.Add(len(functions))
 	exceptions := make([]Exception, len(functions))
+	vtid := VerifTraceID()
+	VerifTrace(fm, "rp.begin", vtid, len(functions))
 	for i, function := range functions {
+		VerifTrace(fm, "rp.spawn", vtid, i)
 		go func(fm2 *Frame, function Callable, pexc *Exception) {
+			VerifTrace(fm, "rp.start", vtid, i)
 			err := function.Call(fm2, NoArgs, NoOpts)
+			VerifTrace(fm, "rp.finish", vtid, i, err)
 			if err != nil {
 				*pexc = err.(Exception)
 			}
+			VerifTrace(fm, "rp.done", vtid, i)
 			wg.Done()
 		}(fm.Fork(), function, &exceptions[i])
 	}
 
 	wg.Wait()
+	VerifTrace(fm, "rp.ret", vtid)
 	return MakePipelineError(exceptions)
 }
 
@@ -96,51 +103,74 @@ func peach(fm *Frame, opts peachOpt, f Callable, inputs Inputs) error {
 		workerSema = semaphore.NewWeighted(int64(numWorkers))
 	}
 
+	vtid := VerifTraceID()
+	VerifTrace(fm, "peach.begin", vtid, limited, numWorkers, fm.background)
 	ctx := fm.Context()
 
 	inputs(func(v any) {
+		vi := VerifTraceID()
+		VerifTraceLock()
 		if atomic.LoadInt32(&broken) != 0 {
+			VerifTraceUnlock(fm, "peach.chk1", vtid, vi, 1)
 			return
 		}
+		VerifTraceUnlock(fm, "peach.chk1", vtid, vi, 0)
 		if workerSema != nil {
 			if workerSema.Acquire(ctx, 1) != nil {
+				VerifTrace(fm, "peach.acqerr", vtid, vi)
 				// The context has been canceled and no permit is held; don't
 				// start a worker (it would exceed the limit and over-release
 				// the semaphore).
 				return
 			}
+			VerifTrace(fm, "peach.acqok", vtid, vi)
+			VerifTraceLock()
 			// A worker may have broken while this was waiting for a permit.
 			if atomic.LoadInt32(&broken) != 0 {
+				VerifTraceUnlock(fm, "peach.chk2", vtid, vi, 1)
+				VerifTrace(fm, "peach.frel", vtid, vi)
 				workerSema.Release(1)
 				return
 			}
+			VerifTraceUnlock(fm, "peach.chk2", vtid, vi, 0)
 		}
 		wg.Add(1)
+		VerifTrace(fm, "peach.spawn", vtid, vi)
 		go func() {
 			newFm := fm.Fork()
 			newFm.ports[0] = DummyInputPort
+			VerifTrace(fm, "peach.start", vtid, vi)
 			ex := f.Call(newFm, []any{v}, NoOpts)
+			VerifTrace(fm, "peach.finish", vtid, vi, ex)
 
 			if ex != nil {
 				switch Reason(ex) {
 				case nil, Continue:
 					// nop
 				case Break:
+					VerifTraceLock()
 					atomic.StoreInt32(&broken, 1)
+					VerifTraceUnlock(fm, "peach.mark", vtid, vi)
 				default:
 					errMu.Lock()
 					err = errutil.Multi(err, ex)
 					defer errMu.Unlock()
+					VerifTraceLock()
 					atomic.StoreInt32(&broken, 1)
+					VerifTraceUnlock(fm, "peach.mark", vtid, vi)
 				}
 			}
+			VerifTrace(fm, "peach.done", vtid, vi)
 			wg.Done()
 			if workerSema != nil {
+				VerifTrace(fm, "peach.release", vtid, vi)
 				workerSema.Release(1)
 			}
 		}()
 	})
+	VerifTrace(fm, "peach.eof", vtid)
 	wg.Wait()
+	VerifTrace(fm, "peach.ret", vtid)
 	return err
 }
 
